@@ -15,6 +15,7 @@ package c08
 import (
 	"fmt"
 	"net"
+	"strings"
 	"sync"
 	"time"
 
@@ -32,22 +33,24 @@ const (
 
 // rec is one Accounting-Request as decoded by the server.
 type rec struct {
-	Seq      int    `json:"seq"`
-	Type     uint32 `json:"type"`
-	SID      string `json:"sid"`
-	User     string `json:"user"`
-	Calling  string `json:"calling"`
-	IP       string `json:"ip"`
-	Class    string `json:"class"` // hex; "-" when the attribute is absent
-	HasOct   bool   `json:"-"`
-	In       uint64 `json:"in"`  // low word + gigawords<<32 exactly as received
-	Out      uint64 `json:"out"` //
-	SessTime uint32 `json:"-"`
-	Cause    uint32 `json:"cause"`
-	Accepted bool   `json:"ok"`
-	Epoch    int    `json:"epoch"`   // manager incarnation when received
-	Op       int    `json:"op"`      // history op index when received (-1 = final phase)
-	Crashes  int    `json:"crashes"` // crashes injected before this request arrived
+	Seq      int      `json:"seq"`
+	Type     uint32   `json:"type"`
+	SID      string   `json:"sid"`
+	User     string   `json:"user"`
+	Calling  string   `json:"calling"`
+	IP       string   `json:"ip"`
+	Class    string   `json:"class"` // hex; "-" when the attribute is absent
+	HasOct   bool     `json:"-"`
+	In       uint64   `json:"in"`  // low word + gigawords<<32 exactly as received
+	Out      uint64   `json:"out"` //
+	SessTime uint32   `json:"-"`
+	Cause    uint32   `json:"cause"`
+	Accepted bool     `json:"ok"`
+	Epoch    int      `json:"epoch"`   // manager incarnation when received
+	Op       int      `json:"op"`      // history op index when received (-1 = final phase)
+	Crashes  int      `json:"crashes"` // crashes injected before this request arrived
+	Port     int      `json:"-"`       // UDP source port (links the record to the client-side send, latency_test.go)
+	Send     *sendRec `json:"-"`       // the client-side send this record came from (nil: not linked)
 }
 
 func (r rec) String() string {
@@ -82,6 +85,55 @@ type server struct {
 	bad      []string // requests the server could not parse (never expected)
 	// delay (real-time replay only, never used with a bubble): how long to hold the reply of the n-th request
 	delay func(n int, r rec) time.Duration
+
+	// virtual-time request latency (latency_test.go): decided here so that it shares the retry budget
+	lat       map[string][]int // "sid|kind" -> per-send latency in ms (kind: d=direct r=retry i=interim)
+	latPos    map[string]int
+	slowMs    int            // latency floor for every request (op "slow")
+	fast      bool           // final phase: no latency
+	timeoutMs int            // client timeout: a latency >= this loses the request
+	lost      map[string]int // sid -> requests lost by latency (never reached the socket); "*" = session unknown
+}
+
+// latency decides how long the n-th send of stream (sid, kind) travels before it reaches the server
+// (virtual time, slept by the client-side dial hook).  lost = it takes at least the client timeout, i.e.
+// the request is silently dropped and the client gives up at its timeout.  A lost request is a failed
+// attempt of some record of that session, so it is charged to the same retry budget as a "down" answer.
+func (s *server) latency(sid, kind string) (ms int, lost bool) {
+	s.mu.Lock()
+	defer s.mu.Unlock()
+	k := sid + "|" + kind
+	if i := s.latPos[k]; i < len(s.lat[k]) {
+		ms = s.lat[k][i]
+	}
+	s.latPos[k]++
+	if s.slowMs > ms {
+		ms = s.slowMs
+	}
+	if s.fast || s.timeoutMs <= 0 {
+		return 0, false
+	}
+	if ms >= s.timeoutMs {
+		mx := 0
+		for bk, n := range s.fails {
+			if (sid == "*" || strings.HasPrefix(bk, sid+"|")) && n > mx {
+				mx = n
+			}
+		}
+		all := s.lost["*"]
+		if sid == "*" {
+			all = 0
+			for _, n := range s.lost {
+				all += n
+			}
+		}
+		if mx+s.lost[sid]+all >= s.budget {
+			return s.timeoutMs - 1, false // stay inside the retry budget: slow, but it arrives
+		}
+		s.lost[sid]++
+		return ms, true
+	}
+	return ms, false
 }
 
 func planKey(sid string, typ uint32) string { return fmt.Sprintf("%s|%d", sid, typ) }
@@ -93,7 +145,8 @@ func newServer(secret string, plan map[string][]bool, budget int, downCode radiu
 		return nil, err
 	}
 	s := &server{conn: c, secret: []byte(secret), done: make(chan struct{}), plan: plan,
-		pos: map[string]int{}, fails: map[string]int{}, budget: budget, downCode: downCode}
+		pos: map[string]int{}, fails: map[string]int{}, budget: budget, downCode: downCode,
+		latPos: map[string]int{}, lost: map[string]int{}}
 	go s.serve()
 	return s, nil
 }
@@ -198,7 +251,7 @@ func (s *server) serve() {
 		if s.forceUp {
 			down = false
 		}
-		if down && s.fails[bk] >= s.budget {
+		if down && s.fails[bk]+s.lost[r.SID]+s.lost["*"] >= s.budget {
 			down = false // stay inside the retry budget of this record
 		}
 		if down {
@@ -207,6 +260,7 @@ func (s *server) serve() {
 		r.Accepted = !down
 		r.Seq = len(s.log)
 		r.Epoch, r.Op, r.Crashes = s.epoch, s.op, s.crashes
+		r.Port = addr.Port
 		s.log = append(s.log, r)
 		code := radius.CodeAccountingResponse
 		if down {
